@@ -15,7 +15,8 @@ RULE = ("work = number of function-entry events (and, as a finer second measure,
         "label, destination, emphasis, quote, list item or definition look-ahead) and u^n w v^n (u, v one "
         "atom, w in {'', a}; thorough two-atom u/v) over a 29-atom alphabet, at input lengths L, 2L, 4L, under "
         "commonmark and js-default(+linkify stub, typographer). Oracle: length-normalised growth "
-        "(work(4L)/work(L))/(len(4L)/len(L)) <= 1.5 for both measures (linear = 1, quadratic = 4), calls per "
+        "(work(4L)/work(L))/(len(4L)/len(L)) <= 1.5 for both measures (linear = 1, quadratic = 4; a family whose cost per "
+        "character only ramps up until nesting reaches maxNesting - growth between 2L and 4L <= 1.25 - counts as linear), calls per "
         "character <= a fixed constant, Python stack depth bounded independently of n. A measurement is aborted "
         "once the count passes the per-character bound (so a super-linear regression ends the check quickly). "
         "Non-trivial = family whose work is at least 3 calls per character; distinct = distinct families measured.")
@@ -230,6 +231,15 @@ def measure(fam, preset, L, acc):
         return rows, None
     gc = (c4 / max(1, c1)) / (l4 / l1)
     gl = (n4 / max(1, n1)) / (l4 / l1)
+    # work per character ramps up until nesting reaches maxNesting (100 under js-default) and is flat from there:
+    # such a family is linear. A super-linear family keeps growing between the two larger sizes as well.
+    (l2, c2, n2, _d2, _a2) = rows[1]
+    gc2 = (c4 / max(1, c2)) / (l4 / l2)
+    gl2 = (n4 / max(1, n2)) / (l4 / l2)
+    if gc2 <= 1.25:
+        gc = min(gc, gc2)
+    if gl2 <= 1.25:
+        gl = min(gl, gl2)
     acc.maxi("growth_calls_max_x1000", int(gc * 1000)) if not _has_refdef(fam) else None
     acc.maxi("growth_lines_max_x1000", int(gl * 1000)) if not _has_refdef(fam) else None
     acc.maxi("calls_per_char_max", int(c4 / l4))
